@@ -649,3 +649,24 @@ def check(run):
     r10_args_covered(run, F)
     r11_eos(run, F)
     r12_protocol(run, F)
+    if run.tier == "thorough":
+        r3_witness(run, F)
+
+
+def r3_witness(run, F):
+    """E3: compile-fail witnesses (thorough tier): the length setters / buffers are not reachable from another crate."""
+    import subprocess, os
+    from rules.core import VERIF
+    out = subprocess.run([os.path.join(VERIF, "bin", "run-witnesses"), F.repo], capture_output=True, text=True).stdout
+    res = {}
+    for line in out.splitlines():
+        if line.startswith("test src/lib.rs - "):
+            name = line.split(" - ")[1].split(" ")[0]
+            res[name] = line.rstrip().endswith("... ok")
+    pairs = [("W1", "W1Twin", "Tokens::set_tokens_len is private (E0624)"), ("W2", "W2Twin", "ParseTree::set_nodes_len is private (E0624)"),
+             ("W3", "W3Twin", "TokensBuffer cannot be named (E0603)"), ("W4", "W4Twin", "ParseBuffer cannot be named (E0603)"),
+             ("W5", "W1Twin", "Tokens::buffer is private (E0624)")]
+    for w, twin, what in pairs:
+        run.ob("R3-COMPILE-FAIL-WITNESS", w, res.get(w) is True and res.get(twin) is True, "witness/lib.rs.tmpl",
+               "%s: the witness must fail to compile with exactly that error code and its twin must compile (witness %s, twin %s)" % (what, res.get(w), res.get(twin)),
+               sample={"witness": w, "twin": twin, "doctest_output": [l for l in out.splitlines() if (" - %s " % w) in l or (" - %s " % twin) in l]})
